@@ -1562,14 +1562,25 @@ impl SystemState {
         match target.0 {
             0 => todo!("wait target {}", target),
             -1 => {
-                // any child
-                let mut result = None;
+                // Any child: prefer a child whose state has changed, then a
+                // child that is still alive. A child that has already been
+                // waited for is selected only if there is no other child, so
+                // that it does not hide the children that can still be waited
+                // for.
+                let mut result: Option<(Pid, &mut Process)> = None;
                 for (pid, process) in &mut self.processes {
                     if process.ppid == parent_pid {
-                        let changed = process.state_has_changed();
-                        result = Some((*pid, process));
-                        if changed {
-                            break;
+                        if process.state_has_changed() {
+                            return Some((*pid, process));
+                        }
+                        let is_better = match &result {
+                            None => true,
+                            Some((_, best)) => {
+                                !best.state().is_alive() && process.state().is_alive()
+                            }
+                        };
+                        if is_better {
+                            result = Some((*pid, process));
                         }
                     }
                 }
